@@ -15,6 +15,8 @@ structure Rand where
   salt : Bytes := []
   ecdhPub : Bytes := []
   start : Nat := 0
+  /-- start values of the throw-away slots 1..3 of a new core -/
+  starts123 : List Nat := []
   /-- ciphertext + tag bytes of the sealed payload (behind its 8-byte header) -/
   ct : Bytes := []
   sig : Bytes := []
@@ -83,30 +85,33 @@ def selectAlgorithm (own peer : Algos) : Except InitErr (Option Cipher) :=
 def checkSaltedNodeIdHash (env : CryptoEnv) (hash nodeId : Bytes) : Bool :=
   hash.drop 4 = env.nodeHash (hash.take 4) nodeId
 
+/-- entries for the log of genuine seals: ciphertext bytes ↦ what they were sealed from -/
+abbrev SealLog := List (Bytes × Body)
+
 /-- `encrypt_payload`: own payload, sealed with the handshake core if there is one -/
-def encryptPayload (st : InitSt) (rnd : Rand) : InitSt × Bytes :=
+def encryptPayload (st : InitSt) (rnd : Rand) : InitSt × Bytes × SealLog :=
   match st.crypto with
   | some c =>
     let (c', d) := c.encrypt st.payload
-    ({ st with crypto := some c' }, d.hdr ++ rnd.ct)
-  | none => (st, st.payload)
+    ({ st with crypto := some c' }, d.hdr ++ rnd.ct, [(rnd.ct, d.body)])
+  | none => (st, st.payload, [])
 
 /-- `send_message`: builds and signs the message of the given stage, remembers it as last message -/
-def sendMessage (env : CryptoEnv) (st : InitSt) (stage : Nat) (rnd : Rand) : InitSt × Bytes :=
-  let (st1, msg) : InitSt × InitMsg :=
-    if stage = Generated.STAGE_PING then (st, .ping st.hash rnd.ecdhPub st.algos)
+def sendMessage (env : CryptoEnv) (st : InitSt) (stage : Nat) (rnd : Rand) : InitSt × Bytes × SealLog :=
+  let (st1, msg, log) : InitSt × InitMsg × SealLog :=
+    if stage = Generated.STAGE_PING then (st, .ping st.hash rnd.ecdhPub st.algos, [])
     else if stage = Generated.STAGE_PONG then
-      let (s, p) := encryptPayload st rnd
-      (s, .pong st.hash rnd.ecdhPub st.algos p)
+      let (s, p, l) := encryptPayload st rnd
+      (s, .pong st.hash rnd.ecdhPub st.algos p, l)
     else
-      let (s, p) := encryptPayload st rnd
-      (s, .peng st.hash p)
+      let (s, p, l) := encryptPayload st rnd
+      (s, .peng st.hash p, l)
   let bytes := InitMsg.writeTo msg rnd.salt (env.keyHash st.ownKey rnd.salt) rnd.sig
-  ({ st1 with last := some bytes }, bytes)
+  ({ st1 with last := some bytes }, bytes, log)
 
 /-- `send_ping` -/
 def sendPing (env : CryptoEnv) (st : InitSt) (rnd : Rand) : InitSt × Bytes :=
-  let (st1, b) := sendMessage env { st with ecdh := some rnd.ecdhPub } Generated.STAGE_PING rnd
+  let (st1, b, _) := sendMessage env { st with ecdh := some rnd.ecdhPub } Generated.STAGE_PING rnd
   ({ st1 with stage := Generated.STAGE_PONG }, b)
 
 /-- `InitState::every_second`: returns the bytes written to `out` (empty = nothing) -/
@@ -136,7 +141,7 @@ def decryptPayload (st : InitSt) (bodyOf : BodyOf) (data : Bytes) : InitSt × Op
     for an empty message — the raw buffer contents); `payloadOk` models `P::read_from` on the opened
     payload.  Returns the bytes written to `out` (empty = nothing) and the result. -/
 def handleInit (env : CryptoEnv) (bodyOf : BodyOf) (payloadOk : Bytes → Bool)
-    (st : InitSt) (window : Bytes) (rnd : Rand) : Outcome (Bytes × InitResult) :=
+    (st : InitSt) (window : Bytes) (rnd : Rand) : Outcome (Bytes × InitResult × SealLog) :=
   match InitMsg.readFrom env window st.trusted with
   | .error e => .err st e
   | .ok (msg, _) =>
@@ -145,14 +150,14 @@ def handleInit (env : CryptoEnv) (bodyOf : BodyOf) (payloadOk : Bytes → Bool)
     if st.hash = hash || checkSaltedNodeIdHash env hash st.nodeId then .err st .cryptoInitFatal   -- connected to self
     else
       -- stage check
-      let cont : Option InitSt ⊕ Outcome (Bytes × InitResult) :=
+      let cont : Option InitSt ⊕ Outcome (Bytes × InitResult × SealLog) :=
         if stage ≠ st.stage then
           if st.stage = Generated.STAGE_PONG ∧ stage = Generated.STAGE_PING then
             if bytesGt hash st.hash then .inl (some { st with stage := Generated.STAGE_PING, last := none, ecdh := none })
-            else .inr (.ok st ([], .continue))
-          else if st.stage = Generated.CLOSING then .inr (.ok st ([], .continue))
+            else .inr (.ok st ([], .continue, []))
+          else if st.stage = Generated.CLOSING then .inr (.ok st ([], .continue, []))
           else match st.last with
-            | some l => .inr (.ok st (l, .continue))            -- repeat_last_message
+            | some l => .inr (.ok st (l, .continue, []))            -- repeat_last_message
             | none => .inr (.err st .cryptoInitFatal)
         else .inl (some st)
       match cont with
@@ -167,10 +172,10 @@ def handleInit (env : CryptoEnv) (bodyOf : BodyOf) (payloadOk : Bytes → Bool)
           | .ok sel =>
             let st2 := { st1 with selected := sel }
             let st3 := match sel with
-              | some c => { st2 with crypto := some (Core.new (masterKey c rnd.ecdhPub ecdh) (bytesGt st2.hash h) rnd.dummy [rnd.start]) }
+              | some c => { st2 with crypto := some (Core.new (masterKey c rnd.ecdhPub ecdh) (bytesGt st2.hash h) rnd.dummy (rnd.start :: rnd.starts123)) }
               | none => st2
-            let (st4, out) := sendMessage env st3 Generated.STAGE_PONG rnd
-            .ok { st4 with stage := Generated.STAGE_PENG } (out, .continue)
+            let (st4, out, log) := sendMessage env st3 Generated.STAGE_PONG rnd
+            .ok { st4 with stage := Generated.STAGE_PENG } (out, .continue, log)
         | .pong h ecdh algos payload =>
           match st1.ecdh with
           | none => .panic                                   -- ecdh_private_key.take().unwrap()
@@ -181,20 +186,20 @@ def handleInit (env : CryptoEnv) (bodyOf : BodyOf) (payloadOk : Bytes → Bool)
             | .ok sel =>
               let st3 := { st2 with selected := sel }
               let st4 := match sel with
-                | some c => { st3 with crypto := some (Core.new (masterKey c own ecdh) (bytesGt st3.hash h) rnd.dummy [rnd.start]) }
+                | some c => { st3 with crypto := some (Core.new (masterKey c own ecdh) (bytesGt st3.hash h) rnd.dummy (rnd.start :: rnd.starts123)) }
                 | none => st3
               match decryptPayload st4 bodyOf payload with
               | (st5, none) => .err st5 .cryptoInitFatal
               | (st5, some p) =>
                 if !payloadOk p then .err st5 .cryptoInitFatal else
-                let (st6, out) := sendMessage env st5 Generated.STAGE_PENG rnd
-                .ok { st6 with stage := Generated.WAITING_TO_CLOSE, closeTime := Generated.CLOSE_TIME } (out, .success p true)
+                let (st6, out, log) := sendMessage env st5 Generated.STAGE_PENG rnd
+                .ok { st6 with stage := Generated.WAITING_TO_CLOSE, closeTime := Generated.CLOSE_TIME } (out, .success p true, log)
         | .peng _ payload =>
           match decryptPayload st1 bodyOf payload with
           | (st2, none) => .err st2 .cryptoInitFatal
           | (st2, some p) =>
             if !payloadOk p then .err st2 .cryptoInitFatal else
-            .ok { st2 with stage := Generated.CLOSING } ([], .success p false)
+            .ok { st2 with stage := Generated.CLOSING } ([], .success p false, [])
 
 end Init
 end VpnCloud
